@@ -25,10 +25,15 @@ func (a *Audience) UnmarshalJSON(text []byte) error {
 	}
 	switch aud := i.(type) {
 	case []any:
-		*a = make([]string, len(aud))
+		auds := make([]string, len(aud))
 		for i, audience := range aud {
-			(*a)[i] = audience.(string)
+			str, ok := audience.(string)
+			if !ok {
+				return fmt.Errorf("oidc.Audience: unable to parse type %T with value %v", audience, audience)
+			}
+			auds[i] = str
 		}
+		*a = auds
 	case string:
 		*a = []string{aud}
 	}
